@@ -1501,6 +1501,69 @@ func ruleC01Frame(c *Ctx) {
 			}
 		}
 	}
+	// positions kept in a small struct of the parser (`next lineMark{start int; known bool}`): its int fields are position
+	// fields too, and its methods are judged like the parser's own
+	nestedTypes := map[*types.Named]bool{}
+	for i := 0; st != nil && i < st.NumFields(); i++ {
+		if n2, ok := st.Field(i).Type().(*types.Named); ok && n2.Obj().Pkg() == c.Pkg.Types {
+			if st2, ok := n2.Underlying().(*types.Struct); ok {
+				nestedTypes[n2] = true
+				for j := 0; j < st2.NumFields(); j++ {
+					if b, ok := st2.Field(j).Type().Underlying().(*types.Basic); ok && b.Kind() == types.Int {
+						intFields[st2.Field(j)] = true
+					}
+				}
+			}
+		}
+	}
+	isParserMethod := func(fn *ssa.Function) bool {
+		if fn.Signature.Recv() == nil {
+			return false
+		}
+		if c.isPkgType(fn.Signature.Recv().Type(), "respDeserializer") {
+			return true
+		}
+		if n2, ok := deref(fn.Signature.Recv().Type()).(*types.Named); ok && nestedTypes[n2] {
+			return true
+		}
+		return false
+	}
+	// a value that is a copy of a position field: a load, or the result of a method that returns such a load
+	var isPosCopy func(v ssa.Value, d int) bool
+	isPosCopy = func(v ssa.Value, d int) bool {
+		if d > 3 {
+			return false
+		}
+		if _, f := loadedField(v); f != nil && intFields[f] {
+			return true
+		}
+		var call *ssa.Call
+		idx := 0
+		switch x := v.(type) {
+		case *ssa.Call:
+			call = x
+		case *ssa.Extract:
+			call, _ = x.Tuple.(*ssa.Call)
+			idx = x.Index
+		}
+		if call == nil {
+			return false
+		}
+		g := call.Call.StaticCallee()
+		if g == nil || !c.InPkg(g) || !isParserMethod(g) {
+			return false
+		}
+		n := 0
+		for _, b := range g.Blocks {
+			if ret, ok := b.Instrs[len(b.Instrs)-1].(*ssa.Return); ok && idx < len(ret.Results) {
+				n++
+				if !isPosCopy(ret.Results[idx], d+1) {
+					return false
+				}
+			}
+		}
+		return n > 0
+	}
 	if fContent == nil || len(intFields) == 0 {
 		c.S.Undecided("R-C01-frame", "parser-fields", "-", "the parser's content / position fields were not found")
 		return
@@ -1551,7 +1614,7 @@ func ruleC01Frame(c *Ctx) {
 	}
 	n := 0
 	for _, fn := range c.SrcFuncs() {
-		if fn.Signature.Recv() == nil || !c.isPkgType(fn.Signature.Recv().Type(), "respDeserializer") {
+		if !isParserMethod(fn) {
 			continue
 		}
 		k := 0
@@ -1568,7 +1631,7 @@ func ruleC01Frame(c *Ctx) {
 				continue
 			}
 			// copied from another position field of the parser (already checked when it was set)
-			if _, f := loadedField(s2.Val); f != nil && intFields[f] {
+			if isPosCopy(s2.Val, 0) {
 				continue
 			}
 			// a counter (x = x + 1 on the same field) is not a position into the content
